@@ -51,8 +51,10 @@ func (c split) Recv() ([]byte, error) {
 			continue // incomplete line
 		}
 		line := buf.Bytes()
-		if n := len(line) - 1; n >= 0 {
-			return line[:n], err
+		if err == nil {
+			return line[:len(line)-1], nil // trim the terminator
+		} else if len(line) != 0 {
+			return line, err // unterminated final record: do not shorten it
 		}
 		return nil, err
 	}
